@@ -146,6 +146,49 @@ def ev_view(e, env):
     return None
 
 
+
+def flag2_syntactic(ctx, repo, vs):
+    val = vs.params[1]
+    pred = None
+    intcheck = False
+    for n in walk_local(vs.node):
+        if isinstance(n, ast.If) and any(isinstance(x, ast.Raise) for x in n.body):
+            t = n.test
+            if isinstance(t, ast.Call) and (chain(t.func) or '').endswith('any') and t.args:
+                src = up(t.args[0])
+                if 'astype(int)' in src and '!=' in src:
+                    intcheck = True
+                elif pred is None and ('<' in src or '>' in src):
+                    pred = t.args[0]
+    ctx.expect(intcheck, 'FLAG-2', 'non-integer flags refused', where(vs), 'raises when value.astype(int) != value', 'no integrality check', 'integrality')
+    if pred is None:
+        ctx.undecided('FLAG-2', 'accepted flag set', where(vs), 'range predicate not found')
+    else:
+        def evalp(e, v):
+            if isinstance(e, ast.Name) and e.id == val:
+                return v
+            if isinstance(e, ast.Constant):
+                return e.value
+            if isinstance(e, ast.Compare) and len(e.ops) == 1:
+                a, b = evalp(e.left, v), evalp(e.comparators[0], v)
+                import operator
+                return {ast.Lt: operator.lt, ast.Gt: operator.gt, ast.LtE: operator.le, ast.GtE: operator.ge, ast.Eq: operator.eq, ast.NotEq: operator.ne}[type(e.ops[0])](a, b)
+            if isinstance(e, ast.BinOp) and isinstance(e.op, (ast.BitOr, ast.BitAnd)):
+                a, b = evalp(e.left, v), evalp(e.right, v)
+                return (a or b) if isinstance(e.op, ast.BitOr) else (a and b)
+            if isinstance(e, ast.UnaryOp) and isinstance(e.op, (ast.Invert, ast.Not)):
+                return not evalp(e.operand, v)
+            raise KeyError(up(e))
+        try:
+            rejected = {v for v in range(-5, 21) if evalp(pred, v)}
+            accepted = set(range(-5, 21)) - rejected
+            ctx.exhaustive = True
+            ctx.expect(accepted == {0, 1, 2, 3, 4, 9}, 'FLAG-2', 'accepted flag set', where(vs, pred), 'accepts exactly {0,1,2,3,4,9} on [-5,20]',
+                       'accepts %s' % sorted(accepted), 'flag-set')
+        except KeyError as e:
+            ctx.undecided('FLAG-2', 'accepted flag set', where(vs, pred), 'predicate form %s' % e)
+
+
 def run(ctx):
     repo = ctx.repo
     ci = repo.cls('source.source', 'Source')
@@ -302,47 +345,34 @@ def run(ctx):
                    'n_wav evaluates to %s' % alg.show(got.poly, 80), 'n-wav')
     else:
         ctx.undecided('CFG-12', 'n_wav is len(valid) once valid is set', where(nwp), 'value not modelled: %r' % (got,))
-    # ---- FLAG-2
+    # ---- FLAG-2: the flag setter interpreted on arrays holding one value everywhere, for every integer of [-5, 20] and two fractional values
     vs = ctx.fn(repo.func('source.source', 'Source.valid@setter'))
-    val = vs.params[1]
-    pred = None
-    intcheck = False
-    for n in walk_local(vs.node):
-        if isinstance(n, ast.If) and any(isinstance(x, ast.Raise) for x in n.body):
-            t = n.test
-            if isinstance(t, ast.Call) and (chain(t.func) or '').endswith('any') and t.args:
-                src = up(t.args[0])
-                if 'astype(int)' in src and '!=' in src:
-                    intcheck = True
-                elif pred is None and ('<' in src or '>' in src):
-                    pred = t.args[0]
-    ctx.expect(intcheck, 'FLAG-2', 'non-integer flags refused', where(vs), 'raises when value.astype(int) != value', 'no integrality check', 'integrality')
-    if pred is None:
-        ctx.undecided('FLAG-2', 'accepted flag set', where(vs), 'range predicate not found')
-    else:
-        def evalp(e, v):
-            if isinstance(e, ast.Name) and e.id == val:
-                return v
-            if isinstance(e, ast.Constant):
-                return e.value
-            if isinstance(e, ast.Compare) and len(e.ops) == 1:
-                a, b = evalp(e.left, v), evalp(e.comparators[0], v)
-                import operator
-                return {ast.Lt: operator.lt, ast.Gt: operator.gt, ast.LtE: operator.le, ast.GtE: operator.ge, ast.Eq: operator.eq, ast.NotEq: operator.ne}[type(e.ops[0])](a, b)
-            if isinstance(e, ast.BinOp) and isinstance(e.op, (ast.BitOr, ast.BitAnd)):
-                a, b = evalp(e.left, v), evalp(e.right, v)
-                return (a or b) if isinstance(e.op, ast.BitOr) else (a and b)
-            if isinstance(e, ast.UnaryOp) and isinstance(e.op, (ast.Invert, ast.Not)):
-                return not evalp(e.operand, v)
-            raise KeyError(up(e))
+    accepted, refused, unknown = set(), set(), {}
+    from fractions import Fraction
+    for k in list(range(-5, 21)) + [Fraction(1, 2), Fraction(7, 2)]:
+        I = Interp(repo)
+        I.axis_len[LW] = 3
+        o = Obj(ci, {'_valid': None, '_flux': None, '_error': None, '_name': None})
+        init_ = repo.find_member(ci, '__init__')
         try:
-            rejected = {v for v in range(-5, 21) if evalp(pred, v)}
-            accepted = set(range(-5, 21)) - rejected
-            ctx.exhaustive = True
-            ctx.expect(accepted == {0, 1, 2, 3, 4, 9}, 'FLAG-2', 'accepted flag set', where(vs, pred), 'accepts exactly {0,1,2,3,4,9} on [-5,20]',
-                       'accepts %s' % sorted(accepted), 'flag-set')
-        except KeyError as e:
-            ctx.undecided('FLAG-2', 'accepted flag set', where(vs, pred), 'predicate form %s' % e)
+            r = I.call(vs, [Arr((LW,), num(k), unit=num(1))], selfv=o)
+        except (AnalysisError, RecursionError) as ex:
+            r = Unk(str(ex)[:80])
+        stored = o.attrs.get('_valid')
+        if isinstance(r, Unk) and 'always raises' in r.why:
+            refused.add(k)
+        elif not isinstance(r, Unk) and isinstance(stored, Arr) and stored.poly == num(k):
+            accepted.add(k)
+        else:
+            unknown[k] = r if isinstance(r, Unk) else stored
+    if unknown:
+        k0 = sorted(unknown, key=float)[0]
+        flag2_syntactic(SuspectCtx(ctx, 'the setter was not decided by interpretation (flag %s: %r) and the syntactic rule, which knows one spelling only, reports' % (k0, unknown[k0])), repo, vs)
+    else:
+        ints = {k for k in accepted if Fraction(k).denominator == 1}
+        ctx.exhaustive = True
+        ctx.expect(not (accepted - ints), 'FLAG-2', 'non-integer flags refused', where(vs), 'flags 0.5 and 3.5 are refused', 'fractional flags %s are accepted' % sorted(map(str, accepted - ints)), 'integrality')
+        ctx.expect(ints == {0, 1, 2, 3, 4, 9}, 'FLAG-2', 'accepted flag set', where(vs), 'accepts exactly {0,1,2,3,4,9} on [-5,20]', 'accepts %s' % sorted(ints), 'flag-set')
     # ---- AGREE-1
     state_roundtrip(ctx, ci)
     from ..staterules import conversion_roundtrip
